@@ -9,6 +9,8 @@ package mcp
 import (
 	"encoding/json"
 	"fmt"
+	"math"
+	"strconv"
 
 	"trpc.group/trpc-go/trpc-mcp-go/internal/errors"
 )
@@ -280,4 +282,14 @@ func parseRawMessageToError(raw *json.RawMessage) (*JSONRPCError, error) {
 		return nil, fmt.Errorf("failed to parse JSON-RPC error: %w", err)
 	}
 	return &errResp, nil
+}
+
+// requestIDKey renders a JSON-RPC id as the key under which a pending request is matched with its
+// response. An integral number yields the same key whether it is still the int64 that was sent or the
+// float64 it became after JSON decoding ("%v" switches to exponent notation at 1e+06 for float64 only).
+func requestIDKey(id interface{}) string {
+	if f, ok := id.(float64); ok && f == math.Trunc(f) && math.Abs(f) < 1<<63 {
+		return strconv.FormatInt(int64(f), 10)
+	}
+	return fmt.Sprintf("%v", id)
 }
